@@ -109,9 +109,15 @@ func monitorSession(c *vk.Ctx, a *app.App, cfg app.Config, hist []string, o sess
 	var d app.Driver
 	var pr *app.PerRequest
 	var b *app.Backend
-	if o.Driver == "long" {
+	if o.Driver == "long" || o.Driver == "resume" {
 		ll := app.NewLongLived(a, cfg)
 		ll.Res.FilterReserved = o.FilterReserved
+		if o.Driver == "resume" {
+			// in-memory resume: the session lives in the client's state and cache objects, a new engine is built over
+			// them for every request
+			ll.Recreate = true
+			m.FreshEngine = true
+		}
 		d = ll
 	} else {
 		var err error
